@@ -108,6 +108,22 @@ func genC06(ctx *Ctx) {
 			}
 		}
 	}
+	// long strings (beyond 128 and 256 bytes) with multi-byte characters before, at and after the index
+	for _, n := range []int{60, 127, 131, 200, 260, 300} {
+		var sb strings.Builder
+		sb.WriteString("é")
+		for sb.Len() < n {
+			sb.WriteString([]string{"0", "1", "日", "3", "4", "5", "6", "é", "8", "9"}[sb.Len()%10])
+		}
+		str := variants.VariantFromString(sb.String())
+		runes := len([]rune(sb.String()))
+		for _, idx := range []int{0, 1, 2, 3, runes / 2, runes - 2, runes - 1, runes, runes + 1, sb.Len() - 1, sb.Len(), sb.Len() + 1, 64, 128, 129} {
+			for _, safe := range []bool{false, true} {
+				ctx.Count("op:index-long-string")
+				ctx.Input(c06Input(safe, 21, str, variants.VariantFromInteger(idx)), true)
+			}
+		}
+	}
 	for op := 1; op <= 21; op++ {
 		for i, a := range pool {
 			for j, b := range pool {
@@ -386,6 +402,35 @@ func runC06(in sx.SX) (sx.SX, string) {
 		if want != nil {
 			if w, _ := resSX(want, nil); sx.Text(w) != sx.Text(obs) {
 				fail = fmt.Sprintf("-a returned %s, the host negation gives %s", sx.Text(obs), sx.Text(w))
+			}
+		}
+	}
+	// indexing follows list semantics: element i of a list, character i of a string (characters, not bytes), an error
+	// outside 0 .. length-1
+	if fail == "" && op == 21 && (b.Type() == variants.Integer || (b.Type() == variants.Long && !safe)) && (a.Type() == variants.String || a.Type() == variants.Array) { // (the type-safe manager refuses a long index: no narrowing)
+		idx := int64(0)
+		if b.Type() == variants.Integer {
+			idx = int64(b.AsInteger())
+		} else {
+			idx = b.AsLong()
+		}
+		if a.Type() == variants.String {
+			rs := []rune(a.AsString())
+			if idx < 0 || idx >= int64(len(rs)) {
+				if err == nil {
+					fail = fmt.Sprintf("character %d of a string of %d characters returned %s instead of an error", idx, len(rs), sx.Text(obs))
+				}
+			} else if err != nil || res == nil || res.Type() != variants.String || res.AsString() != string(rs[idx]) {
+				fail = fmt.Sprintf("character %d of a string of %d characters (%d bytes) is %q, the operator returned %s", idx, len(rs), len(a.AsString()), string(rs[idx]), sx.Text(obs))
+			}
+		} else {
+			es := a.AsArray()
+			if idx < 0 || idx >= int64(len(es)) {
+				if err == nil {
+					fail = fmt.Sprintf("element %d of a list of %d elements returned %s instead of an error", idx, len(es), sx.Text(obs))
+				}
+			} else if err != nil || res == nil || sx.Text(valSX(res)) != sx.Text(valSX(es[idx])) {
+				fail = fmt.Sprintf("element %d of a list of %d elements is %s, the operator returned %s", idx, len(es), sx.Text(valSX(es[idx])), sx.Text(obs))
 			}
 		}
 	}
